@@ -282,6 +282,8 @@ fn gen_op(g: &Geometry, hot: usize) -> Op {
                 // long ranges: complete a partly dirty word, span whole words
                 4 => ps * (8 + c.a(60) as usize),
                 5 => ps * 32,
+                // a length that runs past the end of the address space: the pages that exist are still owed
+                6 if c.a(3) == 0 => usize::MAX - c.a(4) as usize,
                 _ => 1 + c.a(3) as usize,
             };
             // the view adds its base; aim so that base+off == addr when possible
